@@ -1,7 +1,7 @@
 #!/bin/sh
 # run checks' quick (or $1=thorough) command, 4 at a time; summary at the end.
 # usage: run_all.sh [quick|thorough] [Cxx ...]   (default: every claimed check)
-cd /verif
+cd "$(dirname "$0")/.." || exit 2
 tier=${1:-quick}; [ $# -gt 0 ] && shift
 props=${*:-$(/venv/bin/python -c "import json; print(' '.join(c['property_id'] for c in json.load(open('MANIFEST.json'))['checks']))")}
 mkdir -p /var/tmp/giverif-runall
@@ -10,8 +10,5 @@ one() {
   ./check $p $tier > /var/tmp/giverif-runall/$p.log 2>&1; c=$?
   echo "$p exit=$c $(( $(date +%s) - s ))s $(grep -c '^VIOLATION' /var/tmp/giverif-runall/$p.log) violations $(grep -c '^KNOWN-FINDING' /var/tmp/giverif-runall/$p.log) known"
 }
-for p in $props; do
-  one $p &
-  while [ $(jobs -r | wc -l) -ge 4 ]; do sleep 1; done
-done
-wait
+par=${RUNALL_PAR:-4}
+echo $props | tr " " "\n" | xargs -P $par -I{} sh -c 'p={}; s=$(date +%s); ./check $p '$tier' > /var/tmp/giverif-runall/$p.log 2>&1; c=$?; echo "$p exit=$c $(( $(date +%s) - s ))s $(grep -c "^VIOLATION" /var/tmp/giverif-runall/$p.log) violations $(grep -c "^KNOWN-FINDING" /var/tmp/giverif-runall/$p.log) known"'
